@@ -1,6 +1,7 @@
 package evsim
 
 import (
+	"time"
 	"bytes"
 	"encoding/hex"
 	"encoding/json"
@@ -28,6 +29,7 @@ type ReplicaEnv struct {
 	KillAt      []int64  `json:"kill_at,omitempty"`    // FinalizeBlock, process dies before Commit, restart, re-execute
 	Interleave  bool     `json:"interleave,omitempty"` // CheckTx of the block's txs before FinalizeBlock (mempool traffic)
 	Queries     bool     `json:"queries,omitempty"`    // the node serves eth_call traffic (latest and historical heights) between ABCI calls
+	Rounds      bool     `json:"rounds,omitempty"`     // the node is a validator that saw failed consensus rounds: it prepares / processes other proposals for the height before the decided one
 
 	primaryOffset int64
 }
@@ -199,6 +201,9 @@ func envDims(e *ReplicaEnv) []string {
 	if e.Queries {
 		parts = append(parts, "queries")
 	}
+	if e.Rounds {
+		parts = append(parts, "rounds")
+	}
 	if e.Interleave {
 		parts = append(parts, "interleave")
 	}
@@ -248,6 +253,8 @@ func project(e *ReplicaEnv, dim string) ReplicaEnv {
 		o.Interleave = true
 	case "queries":
 		o.Queries = true
+	case "rounds":
+		o.Rounds = true
 	}
 	return o
 }
@@ -322,6 +329,9 @@ func RunReplica(rt *Runtime, r *RunCtx, g *Built, recs []*BlockRecord, env *Repl
 			if env.Queries {
 				replicaQueries(r, n, rec.Height-1)
 			}
+			if env.Rounds {
+				replicaFailedRounds(r, n, rec)
+			}
 			res, err, pi := n.FinalizeBlock(rec.Req)
 			if err != nil || pi != nil {
 				r.Violate("C01", "replica_failed", map[string]string{"env": envClass(env)}, "replica %s height %d: FinalizeBlock failed where the primary succeeded: %v %v", env.Name, rec.Height, err, pi)
@@ -349,6 +359,40 @@ func RunReplica(rt *Runtime, r *RunCtx, g *Built, recs []*BlockRecord, env *Repl
 			}
 		}
 	})
+}
+
+// replicaFailedRounds: what a validator sees at a height whose first rounds failed. Round 0: it is the proposer and
+// prepares a proposal from its own mempool view (the decided txs in reverse order); round 1: it processes somebody
+// else's proposal (the decided txs rotated by one, another time and proposer); then the proposal that is finally
+// decided. None of this may leave anything behind that FinalizeBlock of the decided block can see.
+func replicaFailedRounds(r *RunCtx, n *Node, rec *BlockRecord) {
+	txs := rec.Req.Txs
+	rev := make([][]byte, 0, len(txs))
+	for i := len(txs) - 1; i >= 0; i-- {
+		rev = append(rev, txs[i])
+	}
+	rot := rev
+	if len(txs) > 1 {
+		rot = append(append([][]byte{}, txs[1:]...), txs[0])
+	}
+	_, _, pi := n.PrepareProposal(&abci.RequestPrepareProposal{
+		MaxTxBytes: 1 << 21, Txs: rev, Height: rec.Height, Time: rec.Req.Time.Add(-time.Second),
+		NextValidatorsHash: rec.Req.NextValidatorsHash, ProposerAddress: rec.Req.ProposerAddress,
+		LocalLastCommit: abci.ExtendedCommitInfo{},
+	})
+	if pi != nil {
+		r.Violate("C20", "abci_panic", map[string]string{"phase": "PrepareProposal", "site": panicSite(pi)}, "PrepareProposal panicked: %s", pi.Value)
+	}
+	for k, p := range [][][]byte{rot, txs} {
+		_, _, pi := n.ProcessProposal(&abci.RequestProcessProposal{
+			Txs: p, ProposedLastCommit: rec.Req.DecidedLastCommit, Hash: rec.Req.Hash, Height: rec.Height,
+			Time: rec.Req.Time.Add(time.Duration(k-1) * time.Second), NextValidatorsHash: rec.Req.NextValidatorsHash, ProposerAddress: rec.Req.ProposerAddress,
+		})
+		if pi != nil {
+			r.Violate("C20", "abci_panic", map[string]string{"phase": "ProcessProposal", "site": panicSite(pi)}, "ProcessProposal panicked: %s", pi.Value)
+		}
+	}
+	r.Count("f:failed_round_proposals")
 }
 
 // genReplicas draws the replica environments of a run.
@@ -394,6 +438,7 @@ func genReplicas(rng *rand.Rand, nBlocksHint int, count int, vestEnds []int64) [
 		}
 		e.Interleave = rng.IntN(3) == 0
 		e.Queries = rng.IntN(3) == 0
+		e.Rounds = rng.IntN(3) == 0
 		out = append(out, e)
 	}
 	return out
